@@ -145,9 +145,10 @@ Proof.
 Qed.
 
 (* market-on-close LAY liabilities on the other runners: the exchange's non-runner formula, unrounded *)
-Theorem removal_scales_moc_lay tb mt b rsel a min_adj o r ra :
+Theorem removal_scales_moc_lay tb mt b rsel a min_adj o r :
   so_sel o <> rsel -> so_type o = TMoc -> so_side o = Lay ->
-  find_runner b (so_sel o) = Some r -> r_adj r = Some ra ->
+  find_runner b (so_sel o) = Some r -> a <> 0 ->
+  let ra := match r_adj r with Some x => x | None => 0 end in
   exists o', removal_order tb mt b rsel (Some a) min_adj o = Some o' /\
     (match mt with
      | MWin => so_liab_n o' = so_liab_n o * (10000 - ra - a) /\ so_liab_d o' = so_liab_d o * (10000 - ra)
@@ -155,6 +156,13 @@ Theorem removal_scales_moc_lay tb mt b rsel a min_adj o r ra :
      | _ => o' = o
      end).
 Proof.
-  intros Hs Ht Hsd Hr Hra. unfold removal_order. replace (so_sel o =? rsel) with false by lia.
-  rewrite Ht, Hsd, Hr, Hra. destruct mt; eexists; (split; [reflexivity|]); cbn; try split; reflexivity.
+  intros Hs Ht Hsd Hr Ha. cbv zeta. unfold removal_order. replace (so_sel o =? rsel) with false by lia.
+  rewrite Ht, Hsd, Hr. replace (a =? 0) with false by lia. destruct mt; eexists; (split; [reflexivity|]); cbn; try split; reflexivity.
+Qed.
+(* without an adjustment factor (None or 0) there is nothing to reduce: the order is left as it is (repair of F-C09-2: the Python used to
+   raise a TypeError inside the middleware, which skipped the matching of that update) *)
+Theorem removal_without_factor_keeps_moc_lay tb mt b rsel adj min_adj o :
+  so_sel o <> rsel -> so_type o = TMoc -> so_side o = Lay -> adj = None \/ adj = Some 0 -> removal_order tb mt b rsel adj min_adj o = Some o.
+Proof.
+  intros Hs Ht Hsd Ha. unfold removal_order. replace (so_sel o =? rsel) with false by lia. rewrite Ht, Hsd. destruct Ha as [->| ->]; reflexivity.
 Qed.
